@@ -6,10 +6,15 @@ specfn("ParsedVals", ["Str"], "Arr[Str,Num]")
 
 contract("pint.util:to_units_container",
          params={"unit_like": "Str", "registry": "Opt[Ref[GenericPlainRegistry]]"}, returns="Ref[UnitsContainer]",
-         ensures={"parsed": "fresh(result) and keys(result._d) == ParsedKeys(unit_like) and vals(view(result)) == ParsedVals(unit_like)"},
+         cases=[
+             {"_name": "string", "unit_like": "Str",
+              "_ensures": {"parsed": "fresh(result) and keys(result._d) == ParsedKeys(unit_like) and vals(view(result)) == ParsedVals(unit_like)"}},
+             {"_name": "container", "unit_like": "Ref[UnitsContainer]", "_ensures": {"identity": "result == unit_like"}},
+         ],
          modifies=[], trusted=True,
-         note="string branch: ParserHelper.from_string / registry.parse_units_as_container (the parser, C07/C08)",
-         props=["C17"])
+         note="string branch: ParserHelper.from_string / registry.parse_units_as_container (the parser, C07/C08); "
+              "a UnitsContainer is returned as it is (`if UnitsContainer in type(unit_like).mro(): return unit_like`)",
+         props=["C17", "C02"])
 
 contract("pint.registry_helpers:_to_units_container",
          params={"a": "Str", "registry": "Opt[Ref[GenericPlainRegistry]]"},
